@@ -24,16 +24,19 @@ void h_commit_parse(void) {
     unsigned char out[33]; int ret, ret2;
     __CPROVER_assume(k < 33);
     verif_ctx_init(&ctx);
-    g_oc_n = 0;
+    g_oc_n = 0; g_xq_n = 0;
     if (nullsel == 0) {
         ret = secp256k1_pedersen_commitment_parse(&ctx, &commit, in);
         __CPROVER_assert(ret == 0 || ret == 1, "C08 commitment_parse: returns 0 or 1");
         __CPROVER_assert(g_illegal == 0 && g_error == 0, "C08 commitment_parse: no callback for non-NULL arguments, whatever the bytes");
 #ifndef VERIF_NATIVE
-        {   wide x = be256(in + 1); int pre = (in[0] == 8 || in[0] == 9);
+        {   wide x = be256(in + 1); int pre = (in[0] == 8 || in[0] == 9), asked = 0, verdict = 0;
+            /* the curve-membership oracle: either helper (x_on_curve_var or the lift ge_set_xquad), asked for THIS x */
+            if (g_oc_n >= 1 && fval(&g_oc_x) == x) { asked = 1; verdict = g_oc_ret; }
+            else if (g_xq_n >= 1 && fval(&g_xq_x) == x) { asked = 1; verdict = g_xq_ret; }
             if (!pre || x >= P_()) __CPROVER_assert(ret == 0, "C08 commitment_parse: prefix outside {8,9} or x >= p rejected");
-            if (ret == 1) __CPROVER_assert(pre && x < P_() && g_oc_n >= 1 && g_oc_ret == 1 && fval(&g_oc_x) == x, "C08 commitment_parse: accepts only a canonical x whose on-curve verdict, asked for THIS x, is 1");
-            if (pre && x < P_()) __CPROVER_assert(g_oc_n >= 1 && fval(&g_oc_x) == x && ret == g_oc_ret, "C08 commitment_parse: for a canonical encoding the result is the on-curve verdict for this x");
+            if (ret == 1) __CPROVER_assert(pre && x < P_() && asked && verdict == 1, "C08 commitment_parse: accepts only a canonical x whose on-curve verdict, asked for THIS x, is 1");
+            if (pre && x < P_()) __CPROVER_assert(asked && ret == verdict, "C08 commitment_parse: for a canonical encoding the result is the on-curve verdict for this x");
         }
 #endif
         if (ret == 1) {
@@ -45,7 +48,7 @@ void h_commit_parse(void) {
     } else {
         if (nullsel == 1) ret = secp256k1_pedersen_commitment_parse(&ctx, NULL, in);
         else ret = secp256k1_pedersen_commitment_parse(&ctx, &commit, NULL);
-        __CPROVER_assert(ret == 0 && g_illegal == 1, "C08 commitment_parse: NULL argument reports illegal use and returns 0");
+        __CPROVER_assert(ret == 0 && g_illegal >= 1, "C08 commitment_parse: NULL argument reports illegal use and returns 0");
         REACH("commitment parse NULL argument");
     }
 }
@@ -83,7 +86,7 @@ void h_gen_parse(void) {
     } else {
         if (nullsel == 1) ret = secp256k1_generator_parse(&ctx, NULL, gin);
         else ret = secp256k1_generator_parse(&ctx, &gen, NULL);
-        __CPROVER_assert(ret == 0 && g_illegal == 1, "C08 generator_parse: NULL argument reports illegal use and returns 0");
+        __CPROVER_assert(ret == 0 && g_illegal >= 1, "C08 generator_parse: NULL argument reports illegal use and returns 0");
         REACH("generator parse NULL argument");
     }
 }
@@ -109,7 +112,7 @@ void h_gen_serialize(void) {
     } else {
         if (nullsel == 1) ret = secp256k1_generator_serialize(&ctx, NULL, &gen);
         else ret = secp256k1_generator_serialize(&ctx, out, NULL);
-        __CPROVER_assert(ret == 0 && g_illegal == 1, "C08 generator_serialize: NULL argument reports illegal use and returns 0");
+        __CPROVER_assert(ret == 0 && g_illegal >= 1, "C08 generator_serialize: NULL argument reports illegal use and returns 0");
         REACH("generator serialize NULL argument");
     }
 }
